@@ -17,13 +17,13 @@ func init() {
 		Level: "exploration",
 		Rule: "E-twin with a spelling generator: a directory (and a file) is added under each of 14 spellings (absolute, relative, ./, //, d/../d, trailing slash, /./ inside, via absolute and relative symlinks to directory and file, symlink chain), " +
 			"then entries of every byte length in the padding-boundary list (1..255, all residues mod 16) and 8 shapes (ASCII, spaces, leading dot/dash, multi-byte UTF-8 cut at the byte boundary, invalid UTF-8, control characters) are created/written/chmod'ed/renamed/removed with consumer pauses, " +
-			"so names are decoded at offsets across the whole 64 KiB buffer. Every received name must be byte-for-byte Clean(arg) or Clean(arg)+\"/\"+entry as the driver spelled it; with aliases the first spelling added must be used. " +
+			"so names are decoded at offsets across the whole 64 KiB buffer. Every received name must be byte-for-byte Clean(arg) or Clean(arg)+\"/\"+entry as the driver spelled it; with aliases the first spelling added must be used. Directed family: a directory above the watched path is renamed (watch on top, on top/sub/deep and/or top/sub/f, then top/sub moves): later events must still carry the spellings given to Add. " +
 			"distinct_nontrivial = distinct (spelling, entry name) pairs whose events were compared",
 		Assumptions: []string{"the driver knows every entry name it used, so the expected name set does not depend on the harness decoding kernel buffers", "kernel shadow = ground truth for the stream comparison"},
 		Batches:     func(t string) int { return map[string]int{"quick": 14, "thorough": 56}[t] },
 		RaceBatches: func(t string) int { return map[string]int{"quick": 1, "thorough": 14}[t] },
 		AsanBatches: func(t string) int { return map[string]int{"quick": 0, "thorough": 2}[t] },
-		MustObserve: []string{"names_checked", "events_received", "alias_cases"},
+		MustObserve: []string{"stale_parent_histories", "names_checked", "events_received", "alias_cases"},
 		Run:         runC08,
 	})
 }
@@ -71,6 +71,15 @@ func runC08(c *core.Ctx) {
 		sp := spellings[(c.Batch+i*5)%len(spellings)]
 		dir, done := caseDir(c, i)
 		c08Case(c, rng, dir, sp, i)
+		done()
+	}
+	for i := 0; i < c.Pick(6, 30); i++ {
+		rng, ok := c.CaseRng(400000+i, "a directory above the watched path is renamed")
+		if !ok {
+			continue
+		}
+		dir, done := caseDir(c, 400000+i)
+		c08Stale(c, rng, dir, i)
 		done()
 	}
 	if c.Batch%4 == 2 {
@@ -255,6 +264,80 @@ func c08Case(c *core.Ctx, rng *rand.Rand, dir string, sp spelling, idx int) {
 	if idx == 0 {
 		c.Sample(map[string]interface{}{"spelling": sp.Kind, "add_argument": dirArg, "expected_prefix": dclean, "entries": len(names), "example_entry": names[0], "history_tail": s.Tail(6)})
 	}
+}
+
+// c08Stale: a watch keeps the name it was added under for as long as it lives - also when a directory ABOVE the
+// watched path is renamed (the kernel watch follows the inode; the library cannot know the new location and
+// the statement says names follow the Add argument). Watched: a directory top, and by their own paths a
+// directory two levels below it and/or a file one level below it; then top/sub is renamed and things happen
+// at the new location: they must be reported under the spellings given to Add.
+func c08Stale(c *core.Ctx, rng *rand.Rand, dir string, idx int) {
+	s, err := twin.NewSession(dir, []int{-1, 0, 64}[rng.Intn(3)])
+	if err != nil {
+		c.Broken(err.Error())
+		return
+	}
+	defer s.Close()
+	base := s.Base
+	os.Chdir(base)
+	defer os.Chdir("/")
+	os.MkdirAll("top/sub/deep", 0o755)
+	os.Mkdir("top/other", 0o755)
+	os.WriteFile("top/sub/f", nil, 0o644)
+	var rep twin.Report
+	rep.Names = map[string]int{}
+	expected := map[string]bool{}
+	add := func(rel string) string {
+		arg := twin.Spell(rng, base, rel)
+		if s.AddStrict(&rep, arg) != nil {
+			return ""
+		}
+		return filepath.Clean(arg)
+	}
+	top := add("top")
+	var deep, file string
+	if rng.Intn(3) > 0 {
+		deep = add("top/sub/deep")
+	}
+	if deep == "" || rng.Intn(2) == 0 {
+		file = add("top/sub/f")
+	}
+	if top == "" || (deep == "" && file == "") {
+		c.Broken("setup Add failed")
+		return
+	}
+	if rng.Intn(2) == 0 {
+		s.Pause(true)
+	}
+	to := []string{"top/sub2", "top/other/sub"}[rng.Intn(2)]
+	s.Rename("top/sub", to)
+	expected[top+"/sub"], expected[top+"/sub2"], expected[top+"/other"] = true, true, true
+	if deep != "" {
+		s.Creat(to + "/deep/file")
+		s.Write(to+"/deep/file", 2)
+		s.Unlink(to + "/deep/file")
+		expected[deep], expected[deep+"/file"] = true, true
+	}
+	if file != "" {
+		s.Write(to+"/f", 1)
+		s.Chmod(to+"/f", 0o600)
+		expected[file] = true
+	}
+	s.Sync(&rep, true)
+	c.Eval(1)
+	c.Count("stale_parent_histories", 1)
+	if rep.Received > 0 {
+		c.Distinct("stale-parent", to, deep != "", file != "", idx)
+	}
+	for _, d := range rep.Diffs {
+		c.Violate("name-stream-mismatch", fmt.Sprintf("watches added as %q %q %q, then top/sub renamed to %s: stream differs from the kernel log (names follow the Add argument): %s", top, deep, file, to, d.Diff), d)
+	}
+	for nm := range rep.Names {
+		if !expected[nm] {
+			c.Violate("name-mismatch", fmt.Sprintf("watches added as %q %q %q, then top/sub renamed to %s: received name %q is not an Add argument nor an entry below one", top, deep, file, to, nm), s.Tail(10))
+		}
+	}
+	c08Hang(c, &rep)
 }
 
 func c08Hang(c *core.Ctx, rep *twin.Report) {
